@@ -73,7 +73,7 @@ class C16(Prop):
             "solve raised, built after a failed solve} (must raise ValueError); peer status {infeasible, unbounded, "
             "*_inaccurate; MOSEK prim_infeas / dual_infeas / prim_and_dual_infeas with a certificate ray} x transport "
             "on the first solver call (solve must return None); second-phase / undetermined statuses and raised solver "
-            "errors (never a number different from the fault-free twin's); invalid option values (must raise); sampled: "
+            "errors (never a number different from the fault-free twin's or from the same solve without heuristic); invalid option values (must raise); sampled: "
             "genuinely unbounded / infeasible template models on a REAL peer; non-trivial = at least one contract cell "
             "judged; distinct = event-log digests")
     ASSUMPTIONS = ("objects whose value depends on no leaf (constants, the zero gradient of a stationary point) are "
@@ -154,6 +154,13 @@ class C16(Prop):
                                                                      "values": rng.choice(["none", "perturbed"])}}
             solve["_expect"] = "twin"
             plan["twin"] = b.ops + [twin]
+            # ... or the number of the same solve without the dimension reduction (C14: asking for a low-dimensional
+            # example never changes the reported guarantee; falling back on problem 1 after a failed later call is
+            # a legitimate answer)
+            twin0 = copy.deepcopy(twin)
+            for key in ("heuristic", "eig", "tol"):
+                twin0["cfg"].pop(key, None)
+            plan["twin0"] = b.ops + [twin0]
             ops.append(solve)
             if kind == 1 or (kind == 0):
                 # the solver call that fails is the second one: no solve of this model has succeeded, accessors
@@ -215,6 +222,8 @@ class C16(Prop):
         legs = {"main": {"ops": plan["ops"], "opts": plan["opts"]}}
         if plan.get("twin"):
             legs["twin"] = {"ops": plan["twin"], "opts": plan["opts"]}
+        if plan.get("twin0"):
+            legs["twin0"] = {"ops": plan["twin0"], "opts": plan["opts"]}
         return legs
 
     def judged_legs(self, plan):
@@ -276,7 +285,9 @@ class C16(Prop):
                 elif exp == "twin" and "twin" in res:
                     judged += 1
                     tw = (res["twin"].get("outcomes") or [{}])[-1]
-                    if out.get("status") == "ok" and val is not None and val != tw.get("value"):
+                    tw0 = ((res.get("twin0") or {}).get("outcomes") or [{}])[-1]
+                    if out.get("status") == "ok" and val is not None and val != tw.get("value") and \
+                            val != tw0.get("value"):
                         sc = op["peer"]["script"]
                         perturbed = any(v.get("values") == "perturbed" for v in sc.values())
                         if not perturbed:
